@@ -40,6 +40,10 @@ def fam_model(prmset, **kw):
     return f
 
 
+def fam_boundary(tier, seed, n):
+    return scenes.boundary_descs(seed, n), None
+
+
 def fam_stress(tier, seed, n):
     """ real-size stress scenes: > 100 slices with a dense two-level group lowest (layer-id space),
     many groups, many layers """
@@ -63,7 +67,7 @@ PLANS = {
         'mc': {'quick': [('msa', dict(invariants=['Inv_C01'], prmset='PrmMsaQ', ceilos=('a',), nt=3))],
                'thorough': [('msa', dict(invariants=['Inv_C01'], prmset='PrmMsa', ceilos=('a',), nt=3)),
                             ('msa2', dict(invariants=['Inv_C01'], prmset='PrmMsaQ', ceilos=('a', 'b'), nt=2, vv=True, maxper=1))]},
-        'families': {'quick': [('F2', fam_layer_tables, 900), ('F1', fam_model('PrmMsaQ'), 250), ('Rtiny', fam_rand('tiny'), 250), ('Rmid', fam_rand('mid'), 40)],
+        'families': {'quick': [('F2', fam_layer_tables, 700), ('F1', fam_model('PrmMsaQ'), 200), ('Rtiny', fam_rand('tiny'), 250), ('Rmid', fam_rand('mid'), 40)],
                      'thorough': [('F2', fam_layer_tables, 30000), ('F1', fam_model('PrmMsa'), 6000), ('Rtiny', fam_rand('tiny'), 3000), ('Rmid', fam_rand('mid'), 400)]},
         'marks': ['N_tok1', 'N_tok2', 'N_tok3', 'N_msaeq', 'N_abovemsa', 'N_suppressed', 'N_4rep', 'N_okta0row', 'N_ncd', 'N_nsc'],
     },
@@ -72,7 +76,7 @@ PLANS = {
         'mc': {'quick': [('msa', dict(invariants=['Inv_C02'], prmset='PrmMsaQ', ceilos=('a',), nt=3))],
                'thorough': [('msa', dict(invariants=['Inv_C02'], prmset='PrmMsa', ceilos=('a',), nt=3)),
                             ('msa2', dict(invariants=['Inv_C02'], prmset='PrmMsaQ', ceilos=('a', 'b'), nt=2, vv=True, maxper=1))]},
-        'families': {'quick': [('F2', fam_layer_tables, 900), ('F1', fam_model('PrmMsaQ'), 250), ('Rtiny', fam_rand('tiny'), 250), ('Rmid', fam_rand('mid'), 40)],
+        'families': {'quick': [('F2', fam_layer_tables, 700), ('F1', fam_model('PrmMsaQ'), 200), ('Rtiny', fam_rand('tiny'), 250), ('Rmid', fam_rand('mid'), 40)],
                      'thorough': [('F2', fam_layer_tables, 30000), ('F1', fam_model('PrmMsa'), 6000), ('Rtiny', fam_rand('tiny'), 3000), ('Rmid', fam_rand('mid'), 400)]},
         'marks': ['N_ceilnotfirst', 'N_msaeq', 'N_abovemsa', 'N_ncd', 'N_nsc', 'N_flagedge', 'N_suppressed', 'N_okta0row'],
         'seed_shift': 7,
@@ -93,9 +97,9 @@ PLANS = {
                'thorough': [('base', dict(invariants=['Inv_C04'], prmset='PrmBase', ceilos=('a', 'b'), nt=2, maxper=1)),
                             ('code', dict(invariants=['Inv_C04'], prmset='PrmBaseQ', ceilos=('a', 'b'), nt=2, lattice='LatticeB', maxper=1)),
                             ('base3', dict(invariants=['Inv_C04'], prmset='PrmBase', ceilos=('a',), nt=4, orders=('asc', 'desc')))]},
-        'families': {'quick': [('F3', fam_bands, 500), ('F3b', fam_split, 150), ('Rtiny', fam_rand('tiny'), 300), ('Rmid', fam_rand('mid'), 60)],
-                     'thorough': [('F3', fam_bands, None), ('F3b', fam_split, 3000), ('Rtiny', fam_rand('tiny'), 4000), ('Rmid', fam_rand('mid'), 600), ('Rbig', fam_rand('big'), 60)]},
-        'marks': ['N_lookback', 'N_baseties', 'N_excl', 'N_fallback', 'N_interp', 'N_above10k', 'N_floattie'],
+        'families': {'quick': [('F3', fam_bands, 500), ('F3b', fam_split, 150), ('F3c', fam_boundary, 300), ('Rtiny', fam_rand('tiny'), 300), ('Rmid', fam_rand('mid'), 60)],
+                     'thorough': [('F3', fam_bands, None), ('F3b', fam_split, 3000), ('F3c', fam_boundary, 4000), ('Rtiny', fam_rand('tiny'), 4000), ('Rmid', fam_rand('mid'), 600), ('Rbig', fam_rand('big'), 60)]},
+        'marks': ['N_lookback', 'N_baseties', 'N_excl', 'N_fallback', 'N_interp', 'N_above10k', 'N_floattie', 'N_nearboundary'],
         'seed_shift': 13,
     },
     'C05': {
